@@ -160,16 +160,20 @@ def gen_plan(rng, tier, index=0):
     steps = []
     n_steps = r.randint(3, 24 if big else 10)
     for s in range(n_steps):
-        op = r.weighted([("build", 7), ("recon", 1.5), ("read", 1), ("new", 1), ("reconfig", 1), ("clone", 0.7)])
+        op = r.weighted([("build", 7), ("recon", 1.5), ("read", 1), ("new", 1), ("reconfig", 1), ("clone", 0.7), ("bad_build", 0.7)])
         o = r.randrange(n_obj)
         if op == "build":
             k = r.weighted([(1, 3), (2, 3), (3, 2), (4, 2), (5, 1), (6, 1), (8, 1)])
             steps.append({"op": "build", "obj": o, "threads": k, "sched": gen_sched(r.sub("sched", s)),
                           "mode": "forked" if (forked_run and k > 1) else "inproc"})
         elif op == "recon":
-            steps.append({"op": "recon", "obj": o, "cond": r.choice([0.0, 0.0, 1e-3, 0.05])})
+            steps.append({"op": "recon", "obj": o, "cond": r.choice([0.0, 0.0, 1e-3, 0.05, None, None])})      # None: call without the argument
         elif op == "read":
             steps.append({"op": "read", "obj": o})
+        elif op == "bad_build":
+            # a build that is refused (zero processes) - and the retry afterwards must be right
+            steps.append({"op": "bad_build", "obj": o, "threads": r.choice([0, -1])})
+            steps.append({"op": "build", "obj": o, "threads": r.choice([1, 2, 3]), "sched": gen_sched(r.sub("sched", s, "bb")), "mode": "inproc"})
         elif op == "clone":
             steps.append({"op": "clone", "obj": o, "how": r.choice(["deepcopy", "pickle"])})
         elif op == "reconfig":
@@ -288,6 +292,18 @@ def _run_steps(plan, sc, res, log, kern, objs_cfg, n_obj, refs, objs, last, buil
             res.count("op.new")
             continue
         c = obj(o)
+        if op == "bad_build":
+            old_threads = c.threads
+            c.threads = st.get("threads", 0)
+            kern.configure(None, "inproc")
+            try:
+                c.make_covariance_matrix()
+                log.add(si, "bad_build", o, "returned")
+            except BaseException as e:
+                log.add(si, "bad_build", o, type(e).__name__)
+            c.threads = old_threads
+            res.count("fault.build_that_raises")
+            continue
         if op == "clone":
             # the user checkpoints the object and goes on with the copy (copy support itself is not part of the property:
             # an object that refuses to be copied - it may hold a pool - simply stays as it is)
@@ -337,8 +353,12 @@ def _run_steps(plan, sc, res, log, kern, objs_cfg, n_obj, refs, objs, last, buil
                 continue
             res.count("op.recon")
             try:
-                r1 = c.make_tomographic_reconstructor(st.get("cond", 0))
-                r2 = sc.create_tomographic_covariance_reconstructor(last[o], c.n_subaps[0], st.get("cond", 0))
+                if st.get("cond") is None:
+                    r1 = c.make_tomographic_reconstructor()          # documented default: svd_conditioning=0
+                    r2 = sc.create_tomographic_covariance_reconstructor(last[o], c.n_subaps[0], 0)
+                else:
+                    r1 = c.make_tomographic_reconstructor(st["cond"])
+                    r2 = sc.create_tomographic_covariance_reconstructor(last[o], c.n_subaps[0], st["cond"])
                 same = _mbytes(r1) == _mbytes(r2)
                 log.add(si, "recon", o, core.harr(r1))
             except Exception as e:
